@@ -1,5 +1,4 @@
--- Driver executable drv_dfa_query (stub until its family is implemented).
-import AutomataVerif.Driver.Proto
+-- Driver executable drv_dfa_query (C13, C14, C20).
+import AutomataVerif.Driver.DfaQuery
 def main : IO Unit := do
-  AV.Proto.loop (← IO.getStdin) (← IO.getStdout) fun cmd _ =>
-    if cmd == "PING" then .ok "pong" else .error s!"unknown command {cmd}"
+  AV.Proto.loop (← IO.getStdin) (← IO.getStdout) AV.Driver.DfaQuery.handle
